@@ -124,6 +124,7 @@ func NewExplorer(prog *ssa.Program, h *ssa.Function) *Explorer {
 	registerSigModel(ex)
 	registerGradingModel(ex)
 	registerRegexModel(ex)
+	registerCtxModel(ex)
 	return ex
 }
 
